@@ -2,10 +2,18 @@ import Driver.Util
 import FV.Model.Headers
 import FV.Model.Registry0
 import FV.Model.Receivers
+import FV.Model.Context
 import FV.Spec.V0Layout
 
 namespace Driver
 open FV
+
+/-- `Write{Request,Response}Header(ctx)`: the context's map marshalled (in whatever order), read back by the
+independent spec reader. -/
+def writeHeaderOut (h : Hdrs) : String :=
+  match specDecode (marshal h) with
+  | some (l, rest) => if rest.isEmpty ∧ (l.map Prod.fst).Nodup then "ok " ++ pairsOf l else "bad"
+  | none => "bad"
 
 /-- Independent reader of the documented v0 layout (Spec side): pairs in wire order. -/
 def stepHeaders (op : String) (args : List String) : Option String :=
@@ -58,6 +66,27 @@ def stepHeaders (op : String) (args : List String) : Option String :=
     -- the harness appends one well-formed message after the sequence
     let w := (Worker.init.recvAll msgs).recv [0, 0, 0, 0, 0]
     pure s!"delivered={w.delivered} exited={!w.alive}"
+  -- FProtocol layer (C04): the context ReadRequestHeader / ReadResponseHeader build, the bytes Write…Header marshal
+  | "prq", [x] => do
+    let b ← unhex x
+    pure (showRes (fun (c, r) => "ok req=" ++ pairsOf (c.req.without opIdHeader) ++ " resp=" ++ pairsOf c.resp
+      ++ " rest=" ++ hexOf r) (readRequestHeader b 0))
+  | "prs", [x, p] => do
+    let b ← unhex x
+    let pre ← parsePairs p
+    pure (showRes (fun (c, r) => "ok resp=" ++ pairsOf c.resp ++ " rest=" ++ hexOf r)
+      (readResponseHeader ⟨[], Hdrs.setAll [] pre⟩ b))
+  | "pwq", [p] => do
+    let h ← parsePairs p
+    pure (writeHeaderOut h)
+  | "pws", [p] => do
+    let h ← parsePairs p
+    pure (writeHeaderOut h)
+  -- several unrelated streams read at once: each reader's answer is the answer for its own bytes
+  | "umc", [xs] => do
+    let bs ← (xs.splitOn ",").mapM unhex
+    pure ("|".intercalate (bs.map fun b =>
+      showRes (fun (h, r) => "ok " ++ pairsOf h ++ " rest=" ++ hexOf r) (unmarshalStream b)))
   | _, _ => none
 
 end Driver
